@@ -267,3 +267,112 @@ def declared_multiplicities(chk, L, rule, keys):
         chk.ok(rule, key, "no content-sniffing construct in the layout")
         good.append(key)
     return good
+
+
+
+def record_dispatch_eval(chk, repo, rule):
+    """parse_chunk evaluated on model blocks (construct replaced by stubs that follow its contract, see vlib/tracemodel.py): the
+    record type read from the preamble selects the struct (10 -> signal, 11 -> processed), the struct is repeated
+    len(block) / record length times and parses the whole block; an unknown type and a block that is not a whole number
+    of records raise ValueError"""
+    from collections import OrderedDict
+    from ..shapes import Const, DictS, Fn, Interp, ListLit, Obj, ShapeError, _Raise
+    io = repo.module("ceos_alos2.sar_image.io")
+    where = f"{io.relpath}:parse_chunk"
+    L = 24
+
+    def run(code, nbytes):
+        I = Interp(repo)
+        sc = I.module_scope(io)
+        seen = {}
+
+        def pre(I_, a, kw):
+            b = a[0]
+            seen["preamble_from"] = b.v if isinstance(b, Const) else None
+            if not isinstance(b, Const) or len(b.v) < 12:
+                raise _Raise("StreamError: preamble", ["StreamError", "ConstructError", "Exception", "BaseException", "object"])
+            return Obj("Container", OrderedDict(record_type=Const(code)))
+        sc.vars["record_preamble"] = Obj("Struct", OrderedDict(parse=Fn("py", impl=pre, name="parse")))
+
+        def struct(tag):
+            def rep(I_, a, kw):
+                n = a[0].v if isinstance(a[0], Const) else None
+
+                def parse(I2, a2, k2):
+                    seen["parsed"] = (tag, n, len(a2[0].v) if isinstance(a2[0], Const) else None)
+                    return ListLit([Const((tag, i)) for i in range(n or 0)])
+                return Obj("Struct", OrderedDict(parse=Fn("py", impl=parse, name="parse")))
+            return Obj("Struct", OrderedDict(__getitem__=Fn("py", impl=rep, name="__getitem__")))
+        # the table itself is the repository's literal: only the structs it names are replaced
+        e = io.assigns.get("record_types")
+        if not e or not isinstance(e[-1], ast.Dict):
+            raise AnalysisError("anchor vanished: sar_image.io.record_types")
+        table = OrderedDict()
+        for k, v in zip(e[-1].keys, e[-1].values):
+            r = repo.resolve_expr(io, v)
+            table[k.value if isinstance(k, ast.Constant) else norm(k)] = struct(r.name if r.kind == "value" else norm(v))
+        sc.vars["record_types"] = DictS(table)
+        block = bytes(range(256))[:nbytes] if nbytes <= 256 else bytes(nbytes)
+        try:
+            out = I.call(I.lookup("parse_chunk", sc), [Const(block), Const(L)], {})
+        except _Raise as ex:
+            return ("raise", ex.classes, ex.what), seen
+        except ShapeError as ex:
+            raise AnalysisError(f"{where}: cannot be evaluated on a model block: {ex}")
+        return ("ok", [x.v for x in out.elts] if isinstance(out, ListLit) else repr(out)), seen
+
+    for code, want in ((10, "signal_data_record"), (11, "processed_data_record")):
+        for n in (1, 3):
+            res, seen = run(code, n * L)
+            ok = res[0] == "ok" and res[1] == [(want, i) for i in range(n)] and seen.get("parsed") == (want, n, n * L) and seen.get("preamble_from") is not None and len(seen["preamble_from"]) >= 12
+            chk.require(ok, rule, where, f"record type {code}: {n} x {want} parsed from the whole block",
+                        f"a block of {n} records of type {code} is parsed as {res[1] if res[0] == 'ok' else res[2]!r:.80} (struct / multiplicity / bytes: {seen.get('parsed')}), expected {n} x {want} from all {n * L} bytes",
+                        key=f"parse_chunk:dispatch:{code}")
+    res, _ = run(99, 2 * L)
+    chk.require(res[0] == "raise" and res[1] is not None and "ValueError" in res[1], rule, where, "an unknown record type raises ValueError",
+                f"a block with record type 99 gives {res!r:.100} instead of ValueError", key="parse_chunk:unknown-type")
+    res, _ = run(10, 2 * L + 5)
+    chk.require(res[0] == "raise", rule, where, "a block that is not a whole number of records raises", f"a block of {2 * L + 5} bytes (record length {L}) is accepted: {res!r:.80}", key="parse_chunk:partial-record")
+
+
+def variable_conversion_eval(chk, repo, rule):
+    """xarray.to_variable evaluated on model hierarchy Variables: dims, data and attrs reach xr.Variable in their own positions;
+    Array data is wrapped lazily (LazilyIndexedArray(LazilyIndexedWrapper(array, lock))), other data passes through"""
+    from collections import OrderedDict
+    from ..shapes import Const, DictS, Fn, Interp, ListLit, Obj, ShapeError, Top, _Raise
+    xm = repo.module("ceos_alos2.xarray")
+    where = f"{xm.relpath}:to_variable"
+    for kind in ("plain", "array"):
+        I = Interp(repo)
+        sc = I.module_scope(xm)
+        got = {}
+
+        def xrvar(I_, a, kw):
+            names = ["dims", "data", "attrs", "encoding", "fastpath"]
+            got.update(dict(zip(names, a)))
+            got.update(kw)
+            return Obj("xrVariable", OrderedDict())
+        sc.vars["xr"] = Obj("xarray", OrderedDict(Variable=Fn("py", impl=xrvar, name="xr.Variable")))
+        sc.vars["SerializableLock"] = Fn("py", impl=lambda I_, a, k: Obj("SerializableLock", OrderedDict()), name="SerializableLock")
+        sc.vars["indexing"] = Obj("indexing", OrderedDict(LazilyIndexedArray=Fn("py", impl=lambda I_, a, k: Obj("LazilyIndexedArray", OrderedDict(array=a[0])), name="LazilyIndexedArray")))
+        sc.vars["LazilyIndexedWrapper"] = Fn("py", impl=lambda I_, a, k: Obj("LazilyIndexedWrapper", OrderedDict(array=a[0] if a else k.get("array"), lock=a[1] if len(a) > 1 else k.get("lock"))), name="LazilyIndexedWrapper")
+        sc.vars["extract_encoding"] = Fn("py", impl=lambda I_, a, k: DictS({"marker": Const("encoding-of-var")}), name="extract_encoding")
+        arr_cls = repo.resolve_module_name(xm, "Array")
+        data = Obj("Array", OrderedDict(shape=Const((3, 4)), dtype=Const("uint16")), klass=(arr_cls.mod, arr_cls.node) if arr_cls.kind == "class" else None) if kind == "array" else ListLit([Const(1), Const(2)])
+        var_cls = repo.resolve_module_name(repo.module("ceos_alos2.hierarchy"), "Variable")
+        var = Obj("Variable", OrderedDict(dims=ListLit([Const("rows")]), data=data, attrs=DictS({"units": Const("m")})), klass=(var_cls.mod, var_cls.node) if var_cls.kind == "class" else None)
+        try:
+            I.call(I.lookup("to_variable", sc), [var], {})
+        except (ShapeError, _Raise) as e:
+            raise AnalysisError(f"{where}: cannot be evaluated on a model variable ({kind} data): {e}")
+        ok = got.get("dims") is var.fields["dims"] and got.get("attrs") is var.fields["attrs"]
+        chk.require(ok, rule, where, f"{kind} data: dims and attrs of the hierarchy Variable reach xr.Variable in their own positions",
+                    f"{kind} data: xr.Variable receives dims={got.get('dims')!r:.40}, attrs={got.get('attrs')!r:.40}: not the Variable's own dims / attrs", key=f"to_variable:passthrough:{kind}")
+        d = got.get("data")
+        if kind == "plain":
+            chk.require(d is data, rule, where, "non-Array data passes through as is", f"non-Array data reaches xr.Variable as {d!r:.60}", key="to_variable:plain")
+        else:
+            inner = d.fields.get("array") if isinstance(d, Obj) and d.cls == "LazilyIndexedArray" else None
+            ok2 = isinstance(inner, Obj) and inner.cls == "LazilyIndexedWrapper" and inner.fields.get("array") is data and isinstance(inner.fields.get("lock"), Obj)
+            chk.require(ok2, rule, where, "Array data is wrapped as LazilyIndexedArray(LazilyIndexedWrapper(array, lock))",
+                        f"Array data reaches xr.Variable as {d!r:.80}: not the lazily indexed wrapper around the variable's own array", key="to_variable:lazy")
